@@ -204,3 +204,125 @@ def nest_bounds(fn, param_dims):
                 if x.get("k") == "Index":
                     out[id(x)] = "NEST: every index polynomial of the loop nest, maximised over the loop ranges, stays below the indexed dimension's length"
     return out
+
+
+def exact_len_guard(fn, lid):
+    """K when the function starts by leaving unless `<lid>.len() == K`: `if x.len() != K { return .. }`"""
+    for n in core.walk_fn(fn, into_closures=False):
+        if n.get("k") != "If" or "f" in n:
+            continue
+        cnd = core.strip(n["c"])
+        if cnd.get("k") == "Binary" and cnd["op"] == "!=":
+            for a, b in ((cnd["l"], cnd["r"]), (cnd["r"], cnd["l"])):
+                a0 = core.strip(a)
+                k = core.lit_value(b)
+                if a0.get("k") == "MethodCall" and a0["m"] == "len" and not a0["args"] and core.strip(a0["recv"]).get("lid") == lid and isinstance(k, int):
+                    # the then-branch must diverge
+                    t = core.strip(n["t"])
+                    if any(x.get("k") == "Ret" for x in core.walk(t)) or any((x.get("x") or "").find("panic") >= 0 for x in core.walk(t)):
+                        return k, n
+    return None, None
+
+
+def guarded_index(fn, site):
+    """GUARD: `buf[p]` where the function has already returned unless buf.len() == K, and p is a polynomial in
+    counters of enclosing loops over constant-length arrays / literal ranges (lets unfolded) whose maximum is < K"""
+    n = site["node"]
+    base = core.strip(n["l"])
+    if base.get("k") != "Path" or base.get("res") != "local":
+        return None
+    K, guard = exact_len_guard(fn, base["lid"])
+    if K is None:
+        return None
+    # the guard precedes the index in source order (same function body, straight-line prefix)
+    if core.loc(guard) > core.loc(n) and guard.get("sp", "").split(":")[0] == n.get("sp", "").split(":")[0]:
+        try:
+            if int(guard["sp"].split(":")[1]) > int(n["sp"].split(":")[1]):
+                return None
+        except (ValueError, IndexError):
+            return None
+    lets = imm_lets(fn)
+    env = {}
+    ranges = {}
+    for x in core.walk_fn(fn):
+        fl = core.as_for(x)
+        if fl is None or x.get("k") == "DropTemps" or not any(y is n for y in core.walk(fl[2])):
+            continue
+        pat, it = fl[0], core.strip(fl[1])
+        if it.get("k") == "MethodCall" and it["m"] == "enumerate" and pat.get("k") == "Tuple" and pat["pats"] and pat["pats"][0].get("k") == "Binding":
+            src = core.strip(it["recv"])
+            while src.get("k") == "MethodCall" and src["m"] in ("iter", "iter_mut", "into_iter", "copied", "cloned") and not src["args"]:
+                src = core.strip(src["recv"])
+            ty = (src.get("ty") or "").lstrip("&").replace("mut ", "").strip()
+            m = re.match(r"^\[.*; (\d+)\]$", ty)
+            if m:
+                sname = f"k{pat['pats'][0]['lid']}"
+                env[pat["pats"][0]["lid"]] = Poly.sym(sname)
+                ranges[sname] = int(m.group(1))
+        if it.get("k") == "Struct" and it.get("def") == "core::ops::range::Range" and pat.get("k") == "Binding":
+            f = {q["f"]: q["e"] for q in it["fields"]}
+            lo, hi = core.lit_value(f["start"]), core.lit_value(f["end"])
+            if lo == 0 and isinstance(hi, int):
+                sname = f"k{pat['lid']}"
+                env[pat["lid"]] = Poly.sym(sname)
+                ranges[sname] = hi
+
+    def ev(e, depth=0):
+        e0 = core.strip(e)
+        if e0.get("k") == "Path" and e0.get("res") == "local" and e0["lid"] not in env and e0["lid"] in lets and depth < 6:
+            env[e0["lid"]] = ev(lets[e0["lid"]], depth + 1)
+        for y in core.walk(e0):
+            if y.get("k") == "Path" and y.get("res") == "local" and y["lid"] not in env and y["lid"] in lets and depth < 6:
+                env[y["lid"]] = ev(lets[y["lid"]], depth + 1)
+        return algebra.poly_eval(e0, env)
+    try:
+        p = ev(n["r"])
+    except NotAffine:
+        return None
+    if not _nonneg(p):
+        return None
+    q = p
+    for sname, hi in ranges.items():
+        q = _subst(q, sname, Poly.const(hi - 1))
+    if any(mono for mono in q.d if mono):
+        return None
+    mx = q.d.get((), 0)
+    if mx < K:
+        return f"GUARD: the function returns unless the slice has exactly {K} bytes, and the index `{p}` is at most {mx} over the enclosing constant-length loops"
+    return None
+
+
+def chunk_index(fn, site):
+    """CHUNK: constant index k into an element of `buf.chunks(N)` where the function returns unless buf.len() == K,
+    K % N == 0 (every chunk is full) and k < N"""
+    n = site["node"]
+    base = core.strip(n["l"])
+    k = core.lit_value(n["r"])
+    if base.get("k") != "Path" or base.get("res") != "local" or not isinstance(k, int):
+        return None
+    origins = core.binding_origins(fn)
+    for x in core.walk_fn(fn):
+        fl = core.as_for(x)
+        if fl is None or x.get("k") == "DropTemps":
+            continue
+        lids = []
+        stack = [fl[0]]
+        while stack:
+            y = stack.pop()
+            if isinstance(y, dict):
+                if y.get("k") == "Binding":
+                    lids.append(y["lid"])
+                stack.extend(v for v in y.values() if isinstance(v, (dict, list)))
+            elif isinstance(y, list):
+                stack.extend(y)
+        if base["lid"] not in lids:
+            continue
+        for c in core.walk(fl[1]):
+            if c.get("k") == "MethodCall" and c["m"] in ("chunks", "chunks_exact") and c["args"]:
+                N = core.lit_value(c["args"][0])
+                src = core.strip(c["recv"])
+                if isinstance(N, int) and src.get("k") == "Path" and src.get("res") == "local":
+                    K, _g = exact_len_guard(fn, src["lid"])
+                    if K is not None and K % N == 0 and 0 <= k < N:
+                        return f"CHUNK: element of chunks({N}) of a slice of exactly {K} bytes ({K} % {N} == 0), index {k} < {N}"
+    return None
